@@ -96,3 +96,180 @@ UNITS = [
                 "result.start >= 0 and result.stop >= 0"],
        native=gen_slice),
 ]
+
+
+# ---------------------------------------------------------------- scanner: Traverse against Σ
+OPEN = '({['
+CLOSE = {')': '(', '}': '{', ']': '['}
+
+
+def sigma(s):
+  """Spec of the scanner as a mode automaton (DESIGN.md appendix A.1): yields (idx, state, status).
+  Modes: code, '#' comment, '/*' comment, "..." , '...' with backslash escape, `...`, triple quote.
+  Inside a string or comment no character is syntax."""
+  out = []
+  stack = ''
+  mode = ''
+  i = 0
+  n = len(s)
+  while i < n:
+    c = s[i]
+    if mode == '#':
+      if c == '\n':
+        mode = ''
+        out.append((i, stack, 'OK'))
+      i += 1
+      continue
+    if mode == '/':
+      if s[i:i + 2] == '*/':
+        mode = ''
+        i += 2
+      else:
+        i += 1
+      continue
+    if mode == '"':
+      if c == '\n':
+        out.append((i, None, 'EOL in string'))
+      if c == '"':
+        mode = ''
+      out.append((i, stack + mode, 'OK'))
+      i += 1
+      continue
+    if mode == "'":
+      if c == "'":
+        mode = ''
+      elif c == '\\':
+        mode = "'\\"
+      out.append((i, stack + mode, 'OK'))
+      i += 1
+      continue
+    if mode == "'\\":
+      mode = "'"
+      out.append((i, stack + mode, 'OK'))
+      i += 1
+      continue
+    if mode == '`':
+      if c == '`':
+        mode = ''
+      out.append((i, stack + mode, 'OK'))
+      i += 1
+      continue
+    if mode == '3':
+      if s[i:i + 3] == '"""':
+        mode = ''
+        for k in range(3):
+          out.append((i + k, stack, 'OK'))
+        i += 3
+      else:
+        out.append((i, stack + '3', 'OK'))
+        i += 1
+      continue
+    if c == '#':
+      mode = '#'
+      i += 1
+      continue
+    if s[i:i + 3] == '"""':
+      mode = '3'
+      for k in range(3):
+        out.append((i + k, stack + '3', 'OK'))
+      i += 3
+      continue
+    if s[i:i + 2] == '/*':
+      mode = '/'
+      i += 2
+      continue
+    if c in '"\'`':
+      mode = c
+      out.append((i, stack + mode, 'OK'))
+      i += 1
+      continue
+    if c in OPEN:
+      stack += c
+    elif c in CLOSE:
+      if stack and stack[-1] == CLOSE[c]:
+        stack = stack[:-1]
+      else:
+        out.append((i, None, 'Unmatched'))
+        return out
+    out.append((i, stack, 'OK'))
+    i += 1
+  return out
+
+
+SCAN_ALPHA = 'a(])"\'`\\#/*\n'
+
+
+def scan_strings(tier):
+  import itertools
+  n = 4 if tier == 'quick' else 5
+  for k in range(n + 1):
+    for t in itertools.product(SCAN_ALPHA, repeat=k):
+      yield ''.join(t)
+  # longer hand-picked shapes
+  for s in ['f("a)b", \'c\\\'d\') # x(\n', 'a /* ( */ b', '"""a"b"""(', "T('a\\)b')", "'\\\\'(", '[{()}]',
+            '"\\")', "`a(`)", 'x # c\n(y)', '"a\nb"', "'a\\", '/* unterminated (', '"""x""', 'P(x) :- Q("#"), R(\'/*\');']:
+    yield s
+
+
+def gen_traverse(tier, mod):
+  for s in scan_strings(tier):
+    yield {'args': [s], 'env': {'sigma': sigma}, 'show': repr(s)}
+
+
+def removed(s):
+  return ''.join(s[i] for (i, st, status) in sigma(s) if status == 'OK')
+
+
+def bad(s):
+  return any(status != 'OK' for (i, st, status) in sigma(s))
+
+
+def whole(s):
+  y = sigma(s)
+  if not y:
+    return True
+  return y[-1][2] == 'OK' and y[-1][1] == ''
+
+
+UNITS += [
+  unit(F, 'Traverse', props=['C15', 'C19'], deductive=False, params=['s'], yields='tuple',
+       # the scanner is the mode automaton Σ: strings and comments are opaque, brackets are tracked
+       # only in code, indices increase, Unmatched ends the scan
+       ensures=["result == sigma(s)"], native=gen_traverse),
+  unit(F, 'RemoveComments', props=['C15', 'C19'], deductive=False, params=['s'],
+       native_env={'removed': removed, 'bad': bad},
+       ensures=["result == removed(s)"],
+       raises={'ParsingException': "bad(s)"}, native=gen_traverse),
+  unit(F, 'IsWhole', props=['C15'], deductive=False, params=['s'],
+       native_env={'whole': whole},
+       ensures=["result == whole(s)"], native=gen_traverse),
+]
+
+
+# ---------------------------------------------------------------- C++ bridge: byte spans -> character spans
+def gen_decode(tier, mod):
+  texts = ['abc', 'aé', 'éa', 'T("é∞", y);', 'a😀b(c)', '∞', 'x == "é" ++ y, "z"', 'плюс(1)']
+  for t in texts:
+    b = t.encode('utf-8')
+    bounds = [i for i in range(len(b) + 1) if i == len(b) or (b[i] & 0xC0) != 0x80]
+    for i in bounds:
+      for j in bounds:
+        if i <= j:
+          for legacy in (False, True):
+            span = {'__hs': 0, 'start': i, 'stop': j} if legacy else ['__hs', 0, i, j]
+            node = {'__string_table': [t], 'tree': {'expression_heritage': span, 'l': [{'full_text': span}]}}
+            yield {'args': [node], 'env': {'t': t, 'want': b[i:j].decode('utf-8')},
+                   'show': {'text': t, 'byte_span': [i, j], 'legacy_form': legacy}}
+
+
+UNITS += [
+  unit('parser_cpp/logica_parse_cpp.py', '_DecodePooledHeritageOutput', props=['C15'], deductive=False,
+       params=['node'],
+       # a byte span of the statement becomes the HeritageAwareString of exactly that text, whose
+       # character span is literally that text in the statement
+       native_env={'eh': lambda r: r['expression_heritage'], 'ft': lambda r: r['l'][0]['full_text']},
+       ensures=["str(eh(result)) == want", "eh(result).heritage == t",
+                "eh(result).heritage[eh(result).start:eh(result).stop] == want",
+                "str(ft(result)) == want and ft(result).heritage[ft(result).start:ft(result).stop] == want"],
+       native=gen_decode),
+]
